@@ -1,0 +1,284 @@
+//go:build verif
+
+// Contracts for functions of nsqadmin that had none (round 5, area H; C17 / C18), checked by nsqvc. Comment-only file.
+// Uses validS / isErr / curOpts of zz_contracts_admin_verif.go and iupstream502 of zz_contracts_ihandlers_verif.go;
+// assumed library contracts: .trusted/r5H.spec.
+
+package nsqadmin
+
+// ---- /api/counter (C18) ------------------------------------------------------------------------------------------------------------
+// The counter view has one entry per (topic, channel, node): the key of an entry is "<topic>:<channel>:<node>" (r4DFmt3 = fmt.Sprintf
+// with three string arguments, an uninterpreted function of format and arguments) and the entry carries exactly these three names.
+//@ fn r5HCounterKey(cs *clusterinfo.ChannelStats, h *clusterinfo.ChannelStats) string := r4DFmt3("%s:%s:%s", cs.TopicName, cs.ChannelName, h.Node)
+//@ pred r5HCounterReal(st map[string]*counterStats) := st != nil && (forall k string :: {st[k]} has(st, k) ==> st[k] != nil)
+//@ pred r5HCounterKeyed(st map[string]*counterStats) := forall k string :: {st[k]} has(st, k) ==> k == r4DFmt3("%s:%s:%s", st[k].TopicName, st[k].ChannelName, st[k].Node)
+// every per-node entry of the aggregated channel cs has its counter entry
+//@ pred r5HChannelCounted(st map[string]*counterStats, cs *clusterinfo.ChannelStats, n int) := forall j int :: {cs.NodeStats[j]} 0 <= j && j < n && j < len(cs.NodeStats) ==> has(st, r5HCounterKey(cs, cs.NodeStats[j]))
+// ASSUMED (call protocol, as in topicHandler / nodeHandler): the objects that come back from GetNSQDStats are real - the worker stores only
+// &ChannelStats{...} in the map (proved: GetNSQDStats$1/invariant[map]) and ChannelStats.Add appends its non-nil argument to NodeStats; the
+// workers' writes are not modelled in the parent (wg.Wait havocs), so no contract can carry the fact.
+//@ pred r5HStatsReal(m map[string]*clusterinfo.ChannelStats) := forall k string :: {m[k]} has(m, k) ==> m[k] != nil && (forall j int :: {m[k].NodeStats[j]} 0 <= j && j < len(m[k].NodeStats) ==> m[k].NodeStats[j] != nil)
+
+// the count shown under key k (0 if there is no such entry)
+//@ fn r5HCount(st map[string]*counterStats, k string) int := has(st, k) ? st[k].MessageCount : 0
+//@ func (s *httpServer) counterHandler(w http.ResponseWriter, req *http.Request, ps httprouter.Params) (interface{}, error)
+//@   props C18
+//@   ghostparam gk string
+//@   requires validS(s) && http_api.mServerReq(req)
+//   "502 only when none answers": an error answer is exactly an http_api.Err with code 502 and no data; a partial error never produces one.
+//@   ensures[error-is-502] result1 != nil ==> iupstream502(result1) && result0 == nil
+//@   ensures[error-is-an-http-error] result1 != nil ==> dyntype(result1) == typetag("http_api.Err")
+//@   ensures[answer] result1 == nil ==> result0 != nil
+//   "the view is built from the rest": when both look-ups answered completely or PARTIALLY (nil or an ErrList = the package's PartialErr; r4DNPErr /
+//   r5HStatsErr = what the producer look-up / the stats look-up returned) the answer is a view, never an error.
+//@   ensures[partial-failure-still-answers] clusterinfo.r4DUsable(r4DNPErr) && clusterinfo.r4DUsable(r5HStatsErr) ==> result1 == nil
+//   "... and carries a warning": a PARTIAL stats look-up leaves at least one warning for maybeWarnMsg (so the view's message is not empty)
+//@   ensures[partial-failure-carries-a-warning] clusterinfo.ipartial(r5HStatsErr) && result1 == nil ==> len(final(messages)) >= 1
+//   the view covers ALL the data: every per-node entry of every channel GetNSQDStats returned (r5HStatsMap) has its counter entry,
+//   entries are keyed by their own (topic, channel, node) and are real objects.
+//@   ensures[every-node-entry-counted] result1 == nil ==> forall k string :: {r5HStatsMap[k]} has(r5HStatsMap, k) ==> r5HChannelCounted(final(stats), r5HStatsMap[k], len(r5HStatsMap[k].NodeStats))
+//@   ensures[keyed-by-identity] result1 == nil ==> r5HCounterReal(final(stats)) && r5HCounterKeyed(final(stats))
+// ASSUMED (ownership; ENGINE GAP 1 in the notes): the counter map is made by this function and handed to nobody before the loops, so the two
+// look-up calls (which have no frame: their worker goroutines are not followed, wg.Wait = "anything may change") cannot have filled it.
+//@   loop 0
+//@     assume r5HStatsReal(r5HStatsMap)
+//@     assume forall k string :: {has(stats, k)} !atloop(has(stats, k))
+//@     invariant[stats-real] stats != nil && (forall k string :: {stats[k]} has(stats, k) && !atloop(has(stats, k)) ==> stats[k] != nil)
+//@     invariant[keyed-by-identity] forall k string :: {stats[k]} has(stats, k) && !atloop(has(stats, k)) ==> k == r4DFmt3("%s:%s:%s", stats[k].TopicName, stats[k].ChannelName, stats[k].Node)
+//@     invariant[entries-allocated] forall k string :: {stats[k]} has(stats, k) && !atloop(has(stats, k)) ==> allocated(stats[k])
+//@     invariant[entries-separate] forall k1 string, k2 string :: {stats[k1], stats[k2]} has(stats, k1) && has(stats, k2) && k1 != k2 && !atloop(has(stats, k1)) && !atloop(has(stats, k2)) ==> stats[k1] != stats[k2]
+//@     invariant[visited-counted] forall k string :: {r5HStatsMap[k]} visited(k) ==> r5HChannelCounted(stats, r5HStatsMap[k], len(r5HStatsMap[k].NodeStats))
+//@   loop 1
+//@     assume r5HStatsReal(r5HStatsMap)
+//@     assume forall k string :: {has(stats, k)} !atloop(has(stats, k), 0)
+//@     invariant[idx] rangeindex < len(channelStats.NodeStats)
+//@     invariant[channel-real] channelStats != nil
+//@     invariant[stats-real] stats != nil && (forall k string :: {stats[k]} has(stats, k) && !atloop(has(stats, k), 0) ==> stats[k] != nil)
+//@     invariant[keyed-by-identity] forall k string :: {stats[k]} has(stats, k) && !atloop(has(stats, k), 0) ==> k == r4DFmt3("%s:%s:%s", stats[k].TopicName, stats[k].ChannelName, stats[k].Node)
+//   (the key being processed is already in the visited set of the outer range: its channel is the one under way)
+//@     invariant[visited-counted] forall k string :: {r5HStatsMap[k]} visited(k, 0) && r5HStatsMap[k] != channelStats ==> r5HChannelCounted(stats, r5HStatsMap[k], len(r5HStatsMap[k].NodeStats))
+//@     invariant[entries-allocated] forall k string :: {stats[k]} has(stats, k) && !atloop(has(stats, k), 0) ==> allocated(stats[k])
+//@     invariant[counted-so-far] r5HChannelCounted(stats, channelStats, rangeindex + 1)
+//   "every aggregated number is the sum over nodes", one step of it: while ONE aggregated channel is merged, the count under an arbitrary key gk
+//   stays what it was when this channel's merge began if none of the channel's nodes seen so far has that key, and is that value PLUS the node's
+//   message count (for sums that fit int64) if exactly one of them has it.
+//@     invariant[entries-separate] forall k1 string, k2 string :: {stats[k1], stats[k2]} has(stats, k1) && has(stats, k2) && k1 != k2 && !atloop(has(stats, k1), 0) && !atloop(has(stats, k2), 0) ==> stats[k1] != stats[k2]
+//@     invariant[untouched-if-no-node-has-the-key] (forall j int :: {channelStats.NodeStats[j]} 0 <= j && j <= rangeindex && j < len(channelStats.NodeStats) ==> r5HCounterKey(channelStats, channelStats.NodeStats[j]) != gk) ==> r5HCount(stats, gk) == atloop(r5HCount(stats, gk))
+//@     invariant[adds-the-node-count] forall j0 int :: {channelStats.NodeStats[j0]} 0 <= j0 && j0 <= rangeindex && j0 < len(channelStats.NodeStats) && r5HCounterKey(channelStats, channelStats.NodeStats[j0]) == gk
+//@          && (forall j int :: {channelStats.NodeStats[j]} 0 <= j && j <= rangeindex && j < len(channelStats.NodeStats) && j != j0 ==> r5HCounterKey(channelStats, channelStats.NodeStats[j]) != gk)
+//@          ==> clusterinfo.sum64(r5HCount(stats, gk), atloop(r5HCount(stats, gk)), channelStats.NodeStats[j0].MessageCount)
+//   the inner loop is never left before the last node of the channel
+//@     exit[all-nodes] rangeindex + 1 >= len(channelStats.NodeStats)
+
+// ---- small read-only handlers ------------------------------------------------------------------------------------------------------
+// /ping: always the text OK, no error, nothing touched (a read-only view that stays available whatever the admin list says).
+//@ func (s *httpServer) pingHandler(w http.ResponseWriter, req *http.Request, ps httprouter.Params) (interface{}, error)
+//@   props C17 C18
+//@   ensures[ok] result1 == nil && dyntype(result0) == typetag("string") && unbox(result0, "string") == "OK"
+//@   modifies
+//@   nochan
+
+// /api/graphite (read-only proxy of one rate query). Observers: r5HArg* = what http_api.ReqParams.Get returned for "metric" / "target",
+// r5HQ* = what the Graphite query was given through url.Values.Set (.trusted/idata.spec, r5H.spec).
+// GENUINE DEFECT (notes.md, replay nsqadmin_graphite_empty_answer_test.go, fix c18_graphite_empty_answer.patch): the four safety obligations at
+// http.go:742 `*response[0].DataPoints[0][0]` fail - a Graphite answer without a usable first data point ([], no points, a null value) is
+// indexed / dereferenced without a check: 500 "panic in HTTP handler" instead of the rate "N/A".
+//@ func (s *httpServer) graphiteHandler(w http.ResponseWriter, req *http.Request, ps httprouter.Params) (interface{}, error)
+//@   props C18
+//@   requires validS(s) && s.client != nil && http_api.mServerReq(req)
+//@   ensures[error-is-an-http-error] result1 != nil ==> dyntype(result1) == typetag("http_api.Err")
+//@   ensures[error-table] result1 != nil ==> result0 == nil && (isErr(result1, 400, "INVALID_REQUEST") || isErr(result1, 400, "INVALID_ARG_METRIC") || isErr(result1, 400, "INVALID_ARG_TARGET") || isErr(result1, 500, "INTERNAL_ERROR"))
+//@   ensures[answer] result1 == nil ==> result0 != nil
+//   only a rate query that names a target is forwarded: no Graphite query is built otherwise
+//@   ensures[forwarded-only-rate-with-target] r5HQSets != old(r5HQSets) ==> r5HArgMetricErr == nil && r5HArgMetric == "rate" && r5HArgTargetErr == nil
+//   what is forwarded: the request's target, format json, a from/until window (four parameters, nothing else)
+//@   ensures[target-passed-on] result1 == nil ==> r5HQSets == old(r5HQSets) + 4 && r5HQTarget == r5HArgTarget && r5HQFormat == "json"
+//@   ensures[refused-asks-nobody] result1 != nil && !isErr(result1, 500, "INTERNAL_ERROR") ==> r5HQSets == old(r5HQSets) && r5HGraphiteGets == old(r5HGraphiteGets)
+//@   ensures[one-request] result1 == nil || isErr(result1, 500, "INTERNAL_ERROR") ==> r5HGraphiteGets == old(r5HGraphiteGets) + 1
+
+// ---- notify.go / nsqadmin.go helpers -------------------------------------------------------------------------------------------------
+// basicAuthUser (the `user` field of an admin-action notification; NOT the ACL identity): reads only the Authorization header; anything
+// that is not "Basic <base64 of user:password>" gives the empty user. No crash for any header value.
+//@ func basicAuthUser(req *http.Request) string
+//@   props C17
+//@   requires req != nil
+//@   ensures[reads-authorization-header] hdrKey == "Authorization"
+//@   ensures[only-basic-scheme] (len(final(s)) != 2 || final(s)[0] != "Basic") ==> result == ""
+//@   modifies hdrKey, hdrVal
+//@   nochan
+
+// normalizeBasePath: the empty base path is the root; anything else is cleaned by path.Clean after a leading slash was added if missing.
+//@ func normalizeBasePath(p string) string
+//@   props C17
+//@   ensures[empty-is-root] len(p) == 0 ==> result == "/"
+//@   ensures[cleaned] len(p) > 0 ==> (result == r5HPathClean(p) || result == r5HPathClean("/" + p))
+//@   modifies
+//@   nochan
+
+// Set once by NewHTTPServer (composite literal), never written afterwards (checked by an SSA sweep of the package).
+//@ immutable httpServer.router, httpServer.client, httpServer.basePath, httpServer.devStaticDir
+// ServeHTTP: every request goes to the router built by NewHTTPServer (nothing is answered before or instead of it).
+//@ func (s *httpServer) ServeHTTP(w http.ResponseWriter, req *http.Request)
+//@   props C17 C18
+//@   requires s != nil && s.router != nil
+//@   ensures[routed-once] r5HRouted == old(r5HRouted) + 1 && r5HRoutedBy == old(s.router) && r5HRoutedReq == req && r5HRoutedW == w
+
+// RealHTTPAddr: the address the HTTP listener is bound to. The unchecked type assertion cannot fail for the listener New installs
+// (net.Listen("tcp", ..) gives a *net.TCPListener, whose Addr is a *net.TCPAddr: .trusted/r5H.spec, std.spec).
+//@ func (n *NSQAdmin) RealHTTPAddr() *net.TCPAddr
+//@   props C18
+//@   requires n != nil && n.httpListener != nil
+//@   requires[tcp-listener] dyntype(n.httpListener) == typetag("*net.TCPListener")
+//@   ensures[real-address] result != nil
+//@   modifies
+//@   nochan
+
+// ---- the HTTP server: reverse proxy and route table (C17) ----------------------------------------------------------------------------
+// NewSingleHostReverseProxy: a new reverse proxy with a director (rewrites scheme / host, passes basic auth along) and a deadline transport.
+//@ func NewSingleHostReverseProxy(target *url.URL, connectTimeout time.Duration, requestTimeout time.Duration) *httputil.ReverseProxy
+//@   props C17
+//@   ensures[new] result != nil && fresh(result)
+//@   modifies
+//@   nochan
+// the director only rewrites the outgoing request: its URL's scheme and host are the target's
+//@ func NewSingleHostReverseProxy$1(req *http.Request)
+//@   props C17
+//@   requires req != nil && req.URL != nil && target != nil
+//@   ensures[to-the-target] req.URL.Scheme == target.Scheme && req.URL.Host == target.Host
+//@   modifies req.URL.Scheme, req.URL.Host
+//@   nochan
+
+// NewHTTPServer - the ROUTE TABLE. r5HAt(bp, m, p, h): the route "m <bp joined with p>" is registered with an entry built by
+// http_api.Decorate from the handler h (fnname: the ssa name of the bound method; gJoin2 = path.Join of two elements, .trusted/gmeta.spec).
+//@ pred r5HAt(bp string, m string, p string, h string) := setin(r5HRoutes, r5HRoute(m, gJoin2(bp, p), h))
+// bp (the local helper that prefixes every route): path.Join of the server's base path and the route pattern.
+//@ func NewHTTPServer$1(p string) string
+//@   props C17 C18
+//@   requires s != nil
+//@   ensures[joined-with-the-base-path] result == gJoin2(s.basePath, p)
+//@   modifies
+//@   nochan
+//@ func NewHTTPServer(nsqadmin *NSQAdmin) *httpServer
+//@   props C17 C18
+//@   requires nsqadmin != nil
+//@   requires[graphite-url-parsed] curOpts.ProxyGraphite ==> nsqadmin.graphiteURL != nil
+//@   ensures[server] result != nil && fresh(result) && result.nsqadmin == nsqadmin && result.ci != nil && result.client != nil && result.ci.client == result.client && result.router != nil
+//@   ensures[base-path-as-configured] result.basePath == curOpts.BasePath && result.devStaticDir == curOpts.DevStaticDir
+//@   ensures[routes-on-the-servers-router] dyntype(result.router) == typetag("*httprouter.Router") && unbox(result.router, "*httprouter.Router") == r5HRouter
+//@   ensures[wrong-method-is-refused] unbox(result.router, "*httprouter.Router").HandleMethodNotAllowed
+//   C17: EVERY state-changing route (POST / DELETE under /api) goes to one of the six handlers whose contracts start with the admin gate
+//   (isAuthorizedAdminRequest first: [not-admin-403], [not-admin-no-upstream]); PUT /config/:opt goes to doConfig (CIDR gate).
+//@   ensures[state-changing-routes-are-gated] r5HAt(result.basePath, "POST", "/api/topics", "(*github.com/nsqio/nsq/nsqadmin.httpServer).createTopicChannelHandler")
+//@        && r5HAt(result.basePath, "POST", "/api/topics/:topic", "(*github.com/nsqio/nsq/nsqadmin.httpServer).topicActionHandler")
+//@        && r5HAt(result.basePath, "POST", "/api/topics/:topic/:channel", "(*github.com/nsqio/nsq/nsqadmin.httpServer).channelActionHandler")
+//@        && r5HAt(result.basePath, "DELETE", "/api/nodes/:node", "(*github.com/nsqio/nsq/nsqadmin.httpServer).tombstoneNodeForTopicHandler")
+//@        && r5HAt(result.basePath, "DELETE", "/api/topics/:topic", "(*github.com/nsqio/nsq/nsqadmin.httpServer).deleteTopicHandler")
+//@        && r5HAt(result.basePath, "DELETE", "/api/topics/:topic/:channel", "(*github.com/nsqio/nsq/nsqadmin.httpServer).deleteChannelHandler")
+//@   ensures[config-routes-are-cidr-gated] r5HAt(result.basePath, "GET", "/config/:opt", "(*github.com/nsqio/nsq/nsqadmin.httpServer).doConfig")
+//@        && r5HAt(result.basePath, "PUT", "/config/:opt", "(*github.com/nsqio/nsq/nsqadmin.httpServer).doConfig")
+//   C18 / C17 "read-only views stay available": the data views
+//@   ensures[read-only-api-routes] r5HAt(result.basePath, "GET", "/api/topics", "(*github.com/nsqio/nsq/nsqadmin.httpServer).topicsHandler")
+//@        && r5HAt(result.basePath, "GET", "/api/topics/:topic", "(*github.com/nsqio/nsq/nsqadmin.httpServer).topicHandler")
+//@        && r5HAt(result.basePath, "GET", "/api/topics/:topic/:channel", "(*github.com/nsqio/nsq/nsqadmin.httpServer).channelHandler")
+//@        && r5HAt(result.basePath, "GET", "/api/nodes", "(*github.com/nsqio/nsq/nsqadmin.httpServer).nodesHandler")
+//@        && r5HAt(result.basePath, "GET", "/api/nodes/:node", "(*github.com/nsqio/nsq/nsqadmin.httpServer).nodeHandler")
+//@        && r5HAt(result.basePath, "GET", "/api/counter", "(*github.com/nsqio/nsq/nsqadmin.httpServer).counterHandler")
+//@        && r5HAt(result.basePath, "GET", "/api/graphite", "(*github.com/nsqio/nsq/nsqadmin.httpServer).graphiteHandler")
+//@        && r5HAt(result.basePath, "GET", "/ping", "(*github.com/nsqio/nsq/nsqadmin.httpServer).pingHandler")
+//   the pages and assets
+//@   ensures[page-routes] r5HAt(result.basePath, "GET", "/", "(*github.com/nsqio/nsq/nsqadmin.httpServer).indexHandler")
+//@        && r5HAt(result.basePath, "GET", "/topics", "(*github.com/nsqio/nsq/nsqadmin.httpServer).indexHandler")
+//@        && r5HAt(result.basePath, "GET", "/topics/:topic", "(*github.com/nsqio/nsq/nsqadmin.httpServer).indexHandler")
+//@        && r5HAt(result.basePath, "GET", "/topics/:topic/:channel", "(*github.com/nsqio/nsq/nsqadmin.httpServer).indexHandler")
+//@        && r5HAt(result.basePath, "GET", "/nodes", "(*github.com/nsqio/nsq/nsqadmin.httpServer).indexHandler")
+//@        && r5HAt(result.basePath, "GET", "/nodes/:node", "(*github.com/nsqio/nsq/nsqadmin.httpServer).indexHandler")
+//@        && r5HAt(result.basePath, "GET", "/counter", "(*github.com/nsqio/nsq/nsqadmin.httpServer).indexHandler")
+//@        && r5HAt(result.basePath, "GET", "/lookup", "(*github.com/nsqio/nsq/nsqadmin.httpServer).indexHandler")
+//@        && r5HAt(result.basePath, "GET", "/static/:asset", "(*github.com/nsqio/nsq/nsqadmin.httpServer).staticAssetHandler")
+//@        && r5HAt(result.basePath, "GET", "/fonts/:asset", "(*github.com/nsqio/nsq/nsqadmin.httpServer).staticAssetHandler")
+//   ... and NOTHING ELSE: exactly these 26 entries are registered (6 + 2 + 8 + 10),
+//   plus the Graphite reverse proxy on GET /render exactly when --proxy-graphite is set.
+//@   ensures[no-other-route] r5HRouteCount == old(r5HRouteCount) + 26
+//@   ensures[graphite-proxy-only-if-configured] r5HProxyRoutes == old(r5HProxyRoutes) + (old(curOpts.ProxyGraphite) ? 1 : 0)
+//@   ensures[graphite-proxy-route] old(curOpts.ProxyGraphite) ==> setin(r5HRoutes, r5HRoute("GET", gJoin2(result.basePath, "/render"), "reverse-proxy"))
+//   nothing else changes: the records of the registrations, of Decorate and of NewClient (and the new objects)
+//@   modifies r5HRouteCount, r5HDecorations, r4EHCCalls
+
+// ---- nsqadmin.New: option validation (C17 depends on the admin options being taken as given and the CIDR being well-formed) ----------
+// New stores the options object it was given (curOpts == opts; the handlers read the admin list, the ACL header name and the CIDR from it),
+// writes only its Logger (when absent) and its BasePath (normalized), and hands out a daemon only if
+//   exactly one of the two upstream lists is given (lookupd mode XOR direct-nsqd mode: what GetProducers / GetTopicProducers dispatch on),
+//   the TLS certificate and key come together, and --allow-config-from-cidr (if any) is a well-formed CIDR
+//   (= doConfig's precondition [cidr-validated-at-startup]: the /config gate parses it again on every request and ignores the error).
+//@ func New(opts *Options) (*NSQAdmin, error)
+//@   props C17 C18
+//@   requires opts != nil
+//@   ensures[error-means-no-daemon] result1 != nil ==> result0 == nil
+//@   ensures[daemon] result1 == nil ==> result0 != nil && fresh(result0) && result0.httpListener != nil && dyntype(result0.httpListener) == typetag("*net.TCPListener") && result0.notifications != nil && result0.httpClientTLSConfig != nil
+//@   ensures[options-in-force-are-the-given-ones] curOpts == opts && optSwaps == old(optSwaps) + 1
+//@   ensures[admin-options-taken-as-given] opts.AdminUsers == old(opts.AdminUsers) && opts.ACLHTTPHeader == old(opts.ACLHTTPHeader) && opts.AllowConfigFromCIDR == old(opts.AllowConfigFromCIDR)
+//@   ensures[admin-list-untouched] forall k int :: {opts.AdminUsers[k]} 0 <= k && k < len(opts.AdminUsers) ==> opts.AdminUsers[k] == old(opts.AdminUsers[k])
+//@   ensures[cidr-validated] result1 == nil && opts.AllowConfigFromCIDR != "" ==> cidrOK(opts.AllowConfigFromCIDR)
+//@   ensures[exactly-one-upstream-mode] result1 == nil ==> ((len(opts.NSQDHTTPAddresses) == 0) != (len(opts.NSQLookupdHTTPAddresses) == 0))
+//@   ensures[upstream-lists-as-given] opts.NSQDHTTPAddresses == old(opts.NSQDHTTPAddresses) && opts.NSQLookupdHTTPAddresses == old(opts.NSQLookupdHTTPAddresses)
+//@   ensures[tls-cert-and-key-together] result1 == nil ==> ((opts.HTTPClientTLSCert == "") == (opts.HTTPClientTLSKey == ""))
+//@   ensures[graphite-url-parsed] result1 == nil && opts.ProxyGraphite ==> result0.graphiteURL != nil
+//@   ensures[tls-verification-as-configured] result1 == nil ==> result0.httpClientTLSConfig.InsecureSkipVerify == opts.HTTPClientTLSInsecureSkipVerify
+//@   modifies opts.Logger, opts.BasePath, curOpts, optSwaps, gReads, gReadName, gReadData, gReadErr, elems(byte)
+//@   loop 0
+//@     invariant[n] n != nil && fresh(n) && curOpts == opts && n.httpClientTLSConfig != nil && fresh(n.httpClientTLSConfig)
+//@   loop 1
+//@     invariant[n] n != nil && fresh(n) && curOpts == opts && n.httpClientTLSConfig != nil && fresh(n.httpClientTLSConfig)
+
+// ---- pages and assets (read-only: "read-only views stay available") ------------------------------------------------------------------
+// staticAsset: the embedded file static/build/<name>.
+//@ func staticAsset(name string) ([]byte, error)
+//@   props C17
+//@   ensures[one-embedded-read] r5HEmbedReads == old(r5HEmbedReads) + 1
+//@   modifies r5HEmbedReads
+//@   nochan
+
+// staticAssetHandler: the asset named by the route, from the binary - or from --dev-static-dir when that is set (one file read of
+// <dir>/<asset>, nothing else); a missing asset is exactly 404 NOT_FOUND; never an upstream request, never a 403.
+//@ func (s *httpServer) staticAssetHandler(w http.ResponseWriter, req *http.Request, ps httprouter.Params) (interface{}, error)
+//@   props C17
+//@   requires validS(s) && w != nil
+//@   ensures[missing-is-404] result1 != nil ==> result0 == nil && isErr(result1, 404, "NOT_FOUND")
+//@   ensures[asset-is-text] result1 == nil ==> dyntype(result0) == typetag("string")
+//@   ensures[embedded-unless-dev-dir] s.devStaticDir == "" ==> gReads == old(gReads) && r5HEmbedReads == old(r5HEmbedReads) + 1
+//@   ensures[dev-dir-reads-that-asset] s.devStaticDir != "" ==> gReads == old(gReads) + 1 && gReadName == gJoin2(s.devStaticDir, paramByName(ps, "asset")) && r5HEmbedReads == old(r5HEmbedReads)
+//@   ensures[no-upstream-request] untouched()
+//@   modifies gReads, gReadName, gReadData, gReadErr, r5HEmbedReads
+//@   nochan
+
+// indexHandler (the single-page UI; also served for /topics, /nodes, /counter, /lookup ...): ALWAYS served - never an error, whatever the
+// identity (it only tells the page whether the identity is an admin); never an upstream request or a notification.
+//@ func (s *httpServer) indexHandler(w http.ResponseWriter, req *http.Request, ps httprouter.Params) (interface{}, error)
+//@   props C17
+//@   requires validS(s) && req != nil && w != nil
+//@   ensures[always-served] result0 == nil && result1 == nil
+//@   ensures[no-upstream-request] untouched()
+//@   ensures[identity-looked-at] aclIdentity == hdrVal
+//@   modifies hdrKey, hdrVal, aclIdentity, r5HEmbedReads
+
+// ---- shutdown ------------------------------------------------------------------------------------------------------------------------
+// Exit: the listener (if there is one) is closed, the notification channel is closed (the pump's `range` ends) and the goroutines are waited
+// for. Closing the channel twice would panic: Exit is for ONE call (apps/nsqadmin calls it once, from the signal handler).
+//@ func (n *NSQAdmin) Exit()
+//@   props C18
+//@   requires n != nil && n.notifications != nil
+//@   requires[first-call] !closed(n.notifications)
+//@   ensures[pump-told-to-stop] closed(n.notifications)
+//@   modifies
+
+// ---- Main ----------------------------------------------------------------------------------------------------------------------------
+// Main builds the HTTP server with the route table of NewHTTPServer FOR THIS daemon, starts exactly two goroutines - the HTTP serve loop
+// (Main$2: http_api.Serve on the daemon's listener with that server) and the notification pump (handleAdminActions, verified) - and then
+// waits for the first of them to report. (The goroutine bodies are not followed; r5HWrapped records which functions were started.)
+//@ func (n *NSQAdmin) Main() error
+//@   props C17 C18
+//@   requires n != nil
+//@   requires[graphite-url-parsed] curOpts.ProxyGraphite ==> n.graphiteURL != nil
+//@   ensures[two-goroutines] r5HWraps == old(r5HWraps) + 2
+//@   ensures[serve-loop-and-pump-started] setin(r5HWrapped, "(*github.com/nsqio/nsq/nsqadmin.NSQAdmin).Main$2") && setin(r5HWrapped, "(*github.com/nsqio/nsq/nsqadmin.NSQAdmin).handleAdminActions")
+//@   ensures[routes-registered] r5HRouteCount == old(r5HRouteCount) + 26
